@@ -218,15 +218,11 @@ def rule_list_helpers(cx, rid):
         sc = size_changes(body)
         r.check(sc in (["++list.size"], ["list.size++"], ["list.size += 1"]), "append/grows-by-one", where, f"size updates in append: {sc}")
 
-    # get ---------------------------------------------------------------------------------------
-    for f in generic("__redu_list_get"):
-        body = f["body"]
-        rets = [st for st in all_stmts(body) if st["k"] == "return"]
-        adj = [st for st, g in _guards_of(body, lambda s_: s_["k"] == "expr" and s_["e"][0] == "assign" and s_["e"][2] == ("var", "index"))]
-        g_adj = _guards_of(body, lambda s_: s_["k"] == "expr" and s_["e"][0] == "assign" and s_["e"][2] == ("var", "index"))
-        ok = len(rets) == 1 and show(rets[0]["e"]) == "list.data[index]" and len(g_adj) == 1 and show(g_adj[0][0]["e"]) in ("index += (int)list.size", "index += list.size", "index = (index + (int)list.size)") \
-            and [(show(c), t) for c, t in g_adj[0][1]] == [("(index < 0)", True)]
-        r.check(ok, "get/negative-index-counts-from-the-end", where, f"indexing: adjust {[(show(s_['e']), [(show(c), t) for c, t in g]) for s_, g in g_adj]}, return {[show(x['e']) for x in rets]}")
+    # get: evaluated (C semantics) for every list size 1..4 and every valid index, positive and negative
+    from . import c09 as _c09
+    gv = generic("__redu_list_get")
+    why_get = _c09.eval_list_get(gv) if gv else "getter not found"
+    r.check(why_get is None, "get/negative-index-counts-from-the-end", where, f"indexing: {why_get}")
     # comprehension over range(): the helper visits exactly the values of Python's range(start, stop, step), in order, and
     # reports that many elements (abstract interpreter with exact unrolling on a grid of concrete arguments)
     import itertools
